@@ -59,6 +59,8 @@ class SingleShooting(SamplingMethod):
 
     def add_constraints(self,stage,opti):
         self.add_constraints_before(stage, opti)
+        if stage._constraints["integrator_roots"]:
+            raise Exception("Constraints with grid='integrator_roots' cannot be placed by a shooting method; use DirectCollocation.")
         # Obtain the discretised system
         F = self.discrete_system(stage)
 
